@@ -157,6 +157,18 @@ fn build(a: &[&str]) -> Result<(), String> {
 // ---- reference for record text.  Some(Some(w)): grammatical, wire w.  Some(None): certainly outside the grammar.  None: no opinion.
 fn ref_text(s: &str) -> Option<Option<Vec<u8>>> {
     let toks: Vec<&str> = s.split(|c| c == ' ' || c == '\t').filter(|t| !t.is_empty()).collect();
+    if s.bytes().any(|c| c == b'\n' || c == b'\r' || c == 0x0b || c == 0x0c) {
+        return if toks.len() >= 5 && toks[3].bytes().all(|c| c.is_ascii_alphabetic()) && !toks[3].eq_ignore_ascii_case("SOA") { Some(None) } else { None };
+    }
+    // a type keyword glued to its data (`TXT"abc"`, `AAAA::1`): the blank after the keyword is mandatory
+    if toks.len() >= 4 {
+        for k in ["AAAA", "CNAME", "A", "NS", "PTR", "TXT", "MX", "SOA", "DS"] {
+            let t = toks[3];
+            if t.len() > k.len() && t.is_char_boundary(k.len()) && t[..k.len()].eq_ignore_ascii_case(k) && !t.as_bytes()[k.len()].is_ascii_alphanumeric() && !toks[..3].iter().any(|x| x.contains('"') || x.contains('\\')) {
+                return Some(None);
+            }
+        }
+    }
     // TXT: `"` then one or more of { \DDD with DDD <= 255 | a byte 32..=127 other than `\` and `"` } then `"`, optional blanks, end of text
     if toks.len() >= 5 && toks[3].eq_ignore_ascii_case("TXT") && !toks[..4].iter().any(|t| t.contains('"') || t.contains('\\'))
         && !s.starts_with(' ') && !s.starts_with('\t') && !s.bytes().any(|c| c == b'\n' || c == b'\r' || c == 0) {
@@ -174,9 +186,30 @@ fn ref_text(s: &str) -> Option<Option<Vec<u8>>> {
             (b[0].is_ascii_alphanumeric() || b[0] == b'_') && b[1..].iter().all(|&c| c.is_ascii_alphanumeric() || c == b'-') })
             && !n.ends_with("..") && !n.starts_with('.')
     };
+    // the host-name field as the text grammar reads it: letters and digits anywhere, `_` only at the start of a label, `-` only after the start,
+    // labels of 1..=62 characters separated by single dots, an optional trailing dot.  Some(true): accepted by the grammar; Some(false): an error;
+    // None: no opinion (a leading dot, or digits and dots only)
+    let host_verdict = |n: &str| -> Option<bool> {
+        if n.is_empty() { return None; }
+        if n == "." { return Some(true); }
+        if n.starts_with('.') || n.bytes().all(|c| c.is_ascii_digit() || c == b'.') { return None; }
+        let mut ll = 0usize;
+        for c in n.bytes() {
+            match c {
+                b'.' => { if ll == 0 { return Some(false); } ll = 0; }
+                b'_' => { if ll != 0 { return Some(false); } ll += 1; }
+                b'-' => { if ll == 0 { return Some(false); } ll += 1; }
+                c if c.is_ascii_alphanumeric() => { ll += 1; }
+                _ => return Some(false),
+            }
+            if ll > 62 { return Some(false); }
+        }
+        Some(true)
+    };
     // a label that starts with a hyphen is an error wherever it stands (the reference has no opinion on other shapes it does not like)
     let hyphen_label = |n: &str| -> bool { n.split('.').any(|l| l.starts_with('-')) && n.bytes().all(|c| c.is_ascii_alphanumeric() || c == b'-' || c == b'_' || c == b'.') };
     if hyphen_label(owner) { return Some(None); }
+    match host_verdict(owner) { Some(false) => return Some(None), None => return None, Some(true) => {} }
     if !name_ok(owner) { return None; }
     // the TTL is a run of decimal digits that fits 32 bits: anything else (a sign, a letter, a value above 2^32-1) is an error
     if !toks[1].bytes().all(|c| c.is_ascii_digit()) { return Some(None); }
@@ -199,10 +232,10 @@ fn ref_text(s: &str) -> Option<Option<Vec<u8>>> {
                      None if !x.is_empty() && x.len() < 10 && x.bytes().all(|c| c.is_ascii_digit()) && !x.starts_with('0') => return Some(None),
                      _ => return None } }
                  wire(1, Some(ip)) }
-        "NS" | "CNAME" | "PTR" => { if rest.len() != 1 { return Some(None); } if hyphen_label(rest[0]) { return Some(None); } if !name_ok(rest[0]) { return None; }
+        "NS" | "CNAME" | "PTR" => { if rest.len() != 1 { return Some(None); } if hyphen_label(rest[0]) { return Some(None); } match host_verdict(rest[0]) { Some(false) => return Some(None), None => return None, Some(true) => {} } if !name_ok(rest[0]) { return None; }
                  let rt = match t.as_str() { "NS" => 2, "CNAME" => 5, _ => 12 };
                  wire(rt, ref_name_to_wire(rest[0].as_bytes(), None)) }
-        "MX" => { if rest.len() != 2 { return Some(None); } if hyphen_label(rest[1]) { return Some(None); } if !name_ok(rest[1]) { return None; }
+        "MX" => { if rest.len() != 2 { return Some(None); } if hyphen_label(rest[1]) { return Some(None); } match host_verdict(rest[1]) { Some(false) => return Some(None), None => return None, Some(true) => {} } if !name_ok(rest[1]) { return None; }
                  let pref = match num(rest[0], 65535) { Some(v) => v as u16, None => return if rest[0].bytes().all(|c| c.is_ascii_digit()) { Some(None) } else { None } };
                  wire(15, ref_name_to_wire(rest[1].as_bytes(), None).map(|n| { let mut v = vec![(pref >> 8) as u8, pref as u8]; v.extend(n); v })) }
         "SOA" => {
@@ -214,6 +247,7 @@ fn ref_text(s: &str) -> Option<Option<Vec<u8>>> {
                  let nv: Vec<&str> = nums.split(' ').filter(|t| !t.is_empty()).collect();
                  if nm.len() != 2 || nv.len() != 5 { return None; }
                  if hyphen_label(nm[0]) || hyphen_label(nm[1]) { return Some(None); }
+                 for x in [nm[0], nm[1]] { match host_verdict(x) { Some(false) => return Some(None), None => return None, Some(true) => {} } }
                  if !name_ok(nm[0]) || !name_ok(nm[1]) { return None; }
                  let mut rd = match (ref_name_to_wire(nm[0].as_bytes(), None), ref_name_to_wire(nm[1].as_bytes(), None)) { (Some(mut x), Some(y)) => { x.extend(y); x }, _ => return None };
                  for x in &nv { match num(x, u32::MAX as u64) { Some(v) => put32(&mut rd, v as u32), None => return if x.bytes().all(|c| c.is_ascii_digit()) { Some(None) } else { None } } }
@@ -336,6 +370,7 @@ pub fn gen(prop: &str, r: &mut Rng) -> Vec<String> {
             let hn = |r: &mut Rng| -> String { gen_host(r) };
             let kw = |r: &mut Rng, s: &str| -> String { s.chars().map(|c| if r.chance(1, 2) { c.to_ascii_lowercase() } else { c }).collect() };
             // numbers: half of the time a value at or next to the limit of the field (max = largest value the field holds)
+            let pad = |r: &mut Rng, v: u64| -> String { if r.chance(1, 12) { format!("{:0w$}", v, w = 11 + r.below(3) as usize) } else { v.to_string() } };
             let num = |r: &mut Rng, max: u64| -> u64 { if r.chance(1, 2) { *r.pick(&[0, 1, max / 2, max - 1, max, max + 1, max * 2 + 1]) } else { r.below(max + max / 16 + 2) } };
             let body = match r.below(11) {
                 10 => match r.below(3) {
@@ -358,19 +393,24 @@ pub fn gen(prop: &str, r: &mut Rng) -> Vec<String> {
                            _ => format!("{:x}:{:x}::{:x}", r.next() as u16, r.next() as u16, r.next() as u16) };
                        format!("{}{}{}", kw(r, "AAAA"), ws(r), a) }
                 2 => { let k = *r.pick(&["NS", "CNAME", "PTR"]); format!("{}{}{}", kw(r, k), ws(r), hn(r)) }
-                3 => format!("{}{}{}{}{}", kw(r, "MX"), ws(r), num(r, 65535), ws(r), hn(r)),
-                4 => format!("{}{}{}{}{}{}({} {} {} {} {}){}", kw(r, "SOA"), ws(r), hn(r), ws(r), hn(r), if r.chance(1, 4) { String::new() } else { ws(r) }, num(r, 4294967295), r.next() as u32, r.below(5000000000), num(r, 4294967295), r.next() as u32, if r.chance(1, 3) { " " } else { "" }),
+                3 => { let v = num(r, 65535); format!("{}{}{}{}{}", kw(r, "MX"), ws(r), pad(r, v), ws(r), hn(r)) }
+                4 => format!("{}{}{}{}{}{}({} {} {} {} {}){}", kw(r, "SOA"), ws(r), hn(r), ws(r), hn(r), if r.chance(1, 4) { String::new() } else { ws(r) }, { let v = num(r, 4294967295); pad(r, v) }, r.next() as u32, r.below(5000000000), num(r, 4294967295), r.next() as u32, if r.chance(1, 3) { " " } else { "" }),
                 5 => { let n = r.below(9) as usize; format!("{}{}{} {} {} {}", kw(r, "DS"), ws(r), num(r, 65535), num(r, 255), num(r, 255), hex(&r.bytes(n)).replace("-", "") + if r.chance(1, 3) { "a" } else { "" }) }
                 6 => { let n = *r.pick(&[0usize, 3, 255, 256, 300]); format!("{}{}\"{}\"", kw(r, "TXT"), ws(r), (0..n).map(|_| *r.pick(&['a', 'b', ' ', '\\', '0', '4', '6', '"'])).collect::<String>()) }
                 7 => format!("{}{}{}", kw(r, "TXT"), ws(r), (0..r.below(6)).map(|_| *r.pick(&['a', '\\', '1', '9', '"'])).collect::<String>()),
                 _ => { let k = *r.pick(&["MX", "SOA", "DS", "A", "NS"]); format!("{} {}", kw(r, k), hn(r)) }
             };
+            // a zero-padded TTL (11..13 digits) now and then: still the same number
+            let ttl = if r.chance(1, 15) && ttl.bytes().all(|c| c.is_ascii_digit()) && ttl.len() <= 10 { format!("{:0>w$}", ttl, w = 11 + r.below(3) as usize) } else { ttl };
             let class = if r.chance(1, 25) { let c = *r.pick(&["CH", "HS", "ANY", "INN", "I"]); kw(r, c) } else { kw(r, "IN") };
             // the TTL field: now and then with a sign, a letter or a blank-free suffix
             let ttl = if r.chance(1, 25) { format!("{}{}{}", *r.pick(&["+", "-", "", ""]), ttl, *r.pick(&["", "x", "s", ".0"])) } else { ttl.to_string() };
             let mut text = format!("{}{}{}{}{}{}{}", owner, ws(r), ttl, ws(r), class, ws(r), body);
             if r.chance(1, 6) { let n = r.below(text.len() as u64 + 1) as usize; if text.is_char_boundary(n) { text.truncate(n); } }
             if r.chance(1, 8) { text.push_str(" extra"); }
+            if r.chance(1, 20) { text.push_str(*r.pick(&["\n", "\r\n", " \n", "\x0c"])); }
+            // the blank after the type keyword removed (only where the data starts with a quote or a colon)
+            if r.chance(1, 15) { for k in ["TXT ", "txt ", "AAAA ", "aaaa "] { if let Some(i) = text.find(k) { let j = i + k.len(); let rest = text[j..].trim_start().to_string(); if rest.starts_with('"') || rest.starts_with(':') { text = format!("{}{}", &text[..j - 1], rest); } break; } } }
             vec!["c13".into(), "text".into(), hex(text.as_bytes())]
         }
     }
